@@ -244,6 +244,9 @@ func (o *orchestrator) runGroup(g Group) error {
 				if harnessFailures > 3 {
 					return err
 				}
+			} else if fail.idx <= upto {
+				// the case had already been reported when the child stopped: nothing to attribute
+				fail = nil
 			} else {
 				dc := dec.at(fail.idx)
 				cs := dec.toCase(dc)
